@@ -39,6 +39,8 @@ type JavaCase struct {
 	Reps  int         `json:"reps,omitempty"`
 	// kinds named in the ignore list of the bad-smell report (`coca bs -x a,b`); none = the plain report only
 	Ignore []string `json:"ignore,omitempty"`
+	// richness of the conventional units (class label only): 0 plain, 1 further statement and declaration forms, 2 also exotic names, static / wildcard imports, loops, reused names
+	Rich int `json:"rich,omitempty"`
 }
 
 // ---------------------------------------------------------------------------------------
@@ -365,7 +367,19 @@ func genJava(t *rapid.T) JavaCase {
 		add(testClass(t, i))
 	}
 	if rapid.IntRange(0, 2).Draw(t, "withConventionalUnits") > 0 {
-		p := jgen.GenProject(t, jgen.Opts{Bodies: true, Interfaces: true, MaxUnits: 4, MaxMethods: 3, DupNames: true})
+		opts := jgen.Opts{Bodies: true, Interfaces: true, MaxUnits: 4, MaxMethods: 3, DupNames: true}
+		// further statement and declaration forms of the conventional-project generator (no ground
+		// truth is needed here: any valid source tree is an input)
+		switch rapid.IntRange(0, 2).Draw(t, "conventionalRichness") {
+		case 1:
+			opts.Anon, opts.Wide, opts.RichDecl, opts.SharedMethodNames, opts.SuperCallsDeclared = true, true, true, true, true
+			c.Rich = 1
+		case 2:
+			opts.Anon, opts.Wide, opts.RichDecl, opts.SharedMethodNames, opts.SuperCallsDeclared = true, true, true, true, true
+			opts.ExtraImps, opts.UnqualifiedForeign, opts.WordNames, opts.ExoticNames, opts.Loops, opts.ScopedReuse, opts.NameReuse = true, true, true, true, true, true, true
+			c.Rich = 2
+		}
+		p := jgen.GenProject(t, opts)
 		for i, u := range p.Units {
 			dup := false
 			for _, f := range c.Files {
@@ -737,7 +751,9 @@ func checkJava(c JavaCase) pbt.Verdict {
 	}
 	for _, mark := range [][2]string{{"/dto/Order.java", "java/simple_name_in_two_packages"}, {"/report/OrderService.java", "java/two_services_of_one_name"},
 		{"/ship/SlowShipper.java", "java/interface_with_several_components"}, {"/ArchiveRepo.java", "java/subclass_calling_super"},
-		{"/Jobs.java", "java/field_initialisers_anonymous_nested"}, {"/Huge0.java", "java/class_with_twenty_methods"}, {"/Huge1.java", "java/two_classes_with_twenty_methods"}} {
+		{"/Jobs.java", "java/field_initialisers_anonymous_nested"}, {"/Huge0.java", "java/class_with_twenty_methods"}, {"/Huge1.java", "java/two_classes_with_twenty_methods"},
+		{moduleRoot + "com/acme/shop/Order.java", "java/type_declared_in_two_source_roots"}, {moduleRoot + "com/acme/shop/OrderRepo.java", "java/repository_declared_in_two_source_roots"},
+		{"/audit/AuditArchive.java", "java/imports_ending_in_one_another"}, {"/BulkService.java", "java/service_with_17_to_40_methods"}, {"/ShopBulkTest.java", "java/more_than_twenty_tests"}} {
 		for _, f := range c.Files {
 			if strings.HasSuffix(f.Path, mark[0]) {
 				v.Classes = append(v.Classes, mark[1])
@@ -747,6 +763,9 @@ func checkJava(c JavaCase) pbt.Verdict {
 	}
 	if len(c.Ignore) > 0 {
 		v.Classes = append(v.Classes, fmt.Sprintf("java/ignore_list_of_%d", len(c.Ignore)))
+	}
+	if c.Rich > 0 {
+		v.Classes = append(v.Classes, fmt.Sprintf("java/conventional_units_richness_%d", c.Rich))
 	}
 	return v
 }
